@@ -39,6 +39,7 @@ def roundtrip_thunk(cls, with_rest=True):
             return
         wire = ops.as_seq(wire)
         P.inputs['wire'] = wire
+        k6(P, cls, obj, wire)
         if with_rest and cls.__name__ not in NOT_SELF_DELIMITING:
             rest, facts = V.base_seq('rest')
             for f in facts:
@@ -58,12 +59,78 @@ def roundtrip_thunk(cls, with_rest=True):
     return thunk
 
 
-def roundtrip_unit(cls):
+def k6(P, cls, obj, wire):
+    """clause K6: the composed bytes equal the specification encoding written from the protocol documents"""
+    from spec import wire as W, tls, opptls      # noqa: F401
+    try:
+        from spec import ssh, dns                # noqa: F401
+    except ImportError:
+        pass
+    f = W.SPECS.get(cls.__name__)
+    if f is None:
+        return
+    try:
+        want = f(obj)
+    except W.NoSpec as e:
+        P.notes.append(('no-spec', str(e)))
+        return
+    vc.oblige_equal(P, 'K6 %s: composed bytes equal the encoding the specification prescribes' % cls.__name__,
+                    wire.copy('bytes'), want)
+
+
+def has_spec(cls):
+    from spec import wire as W, tls, opptls      # noqa: F401
+    try:
+        from spec import ssh, dns                # noqa: F401
+    except ImportError:
+        pass
+    return cls.__name__ in W.SPECS
+
+
+def full_unit(cls):
+    setup()
+    gen.BOUNDED_NOTES.clear()
+    r = vc.run_unit(cls.__name__, roundtrip_thunk(cls), max_paths=3000)
+    if gen.BOUNDED_NOTES:
+        r.extra['bounded'] = sorted(set(r.extra.get('bounded', [])) | gen.BOUNDED_NOTES)
+    return r
+
+
+def cached_full_unit(cls):
+    import os
+    import pickle
+    d = os.path.join(common.HERE, '.cache', 'e2', e1.source_digest())
+    p = os.path.join(d, '%s.%s.pkl' % (cls.__module__, cls.__name__))
+    if os.path.exists(p):
+        try:
+            with open(p, 'rb') as f:
+                return pickle.load(f)
+        except Exception:
+            pass
+    res = full_unit(cls)
+    if not any(u.startswith('exploration exceeded') for u in res.unsupported):
+        try:
+            os.makedirs(d, exist_ok=True)
+            tmp = p + '.%d.tmp' % os.getpid()
+            with open(tmp, 'wb') as f:
+                pickle.dump(res, f)
+            os.replace(tmp, p)
+        except Exception:
+            pass
+    return res
+
+
+def clause_unit(cls, prefixes):
+    """the obligations of the given clauses (name prefixes) out of the shared E2 exploration of cls"""
     def run():
-        setup()
-        gen.BOUNDED_NOTES.clear()
-        r = vc.run_unit(cls.__name__, roundtrip_thunk(cls), max_paths=3000)
-        if gen.BOUNDED_NOTES:
-            r.extra['bounded'] = sorted(set(r.extra.get('bounded', [])) | gen.BOUNDED_NOTES)
-        return r
+        import copy
+        res = cached_full_unit(cls)
+        out = copy.copy(res)
+        out.obligations = [o for o in res.obligations if o['name'].startswith(tuple(prefixes))
+                           or o['kind'] in ('loop-entry', 'loop-step', 'budget', 'lemma')]
+        return out
     return run
+
+
+def roundtrip_unit(cls):
+    return lambda: full_unit(cls)
